@@ -38,6 +38,8 @@ def elements(params):
         label = "%s%d" % (kind, index)
         if kind == "svc":
             kwargs = {"label": label, "interval": 0.4}
+            if params.get("falsy"):
+                kwargs["falsy"] = True
             fail = params.get("fail")
             if fail and fail[0] == index:
                 kwargs["fail_after"] = 2
@@ -327,9 +329,14 @@ def scenario_params(tier):
             out.append({"format": "py", "py_style": "dataclass", "shape": shape,
                         "flavour": flavour, "forms": ("tag",), "end": "sigint",
                         "sigint_cost": 1 if tier == "quick" else 0})
+    # services that are falsy objects (container-like elements)
+    for fmt, flavour in itertools.product(["yaml", "py"], list(SERVICE_CLASS)):
+        out.append({"format": fmt, "shape": ("svc", "pool"), "flavour": flavour,
+                    "forms": ("type",) if fmt == "yaml" else ("tag",), "falsy": True,
+                    "end": "sigint", "sigint_cost": 1 if tier == "quick" else 0})
     # failing services
     for fmt, flavour, how, shape in itertools.product(
-            ["yaml", "py"], list(SERVICE_CLASS), ["raise", "return"],
+            ["yaml", "py"], list(SERVICE_CLASS), ["raise", "return", "exit"],
             [("svc", "pool"), ("svc", "decosvc", "pool")]):
         out.append({"format": fmt, "shape": shape, "flavour": flavour, "forms": ("tag", "type"),
                     "end": "fail", "fail": (0, how)})
